@@ -101,7 +101,10 @@ def c14a_rules(ctx, tu):
         uses = cfg.find_events(fn, lambda e: e["e"] == "call" and qe(e) == NS + "null_on_move::operator->")
         g = [bid for bid in fn.blocks if cfg.cond_of(fn, bid) is not None and
              lib.tree_name(cond_shape(cfg.cond_of(fn, bid))[0]) == NS + "null_on_move::operator bool"]
-        ok = len(g) == 1 and bool(uses) and all(cfg.edge_dominates(fn, (g[0], 0), b) for b, _, _ in uses)
+        ok = len(g) == 1 and bool(uses)
+        if ok:
+            pol = cond_shape(cfg.cond_of(fn, g[0]))[1]
+            ok = all(cfg.edge_dominates(fn, (g[0], 0 if pol else 1), b) for b, _, _ in uses)
         ctx.ob("C14.a", NS + "null_on_move::p (guarded by null test)", ok, pattern=fn.pat, unit=tu.name, inst=fn.q,
                detail="" if ok else "the watched object follows its monitor pointer without testing it")
     # peer: handle -> sequence_type.  The referent's destructor unlinks the handles, but the handle keeps
